@@ -335,6 +335,7 @@ def run(chk):
         check_ks_noise(chk, v)
         en = v.fn("lweSymEncryptWithExternalNoise")
         eps, _ = summ.pieces(v, en, hooks=NOINLINE)
+        eps = summ.fold_accumulators(eps)
         r, m, nz, al, ky = [p["n"] for p in en.params]
         binit = [p for p in eps if p["kind"] == "store" and p["lv"] == P(r, "b") and p["op"] == "="]
         okn = len(binit) == 1 and binit[0]["val"] == sym.add(sym.sym(m), ("call", "dtot32", (sym.sym(nz),)))
@@ -368,9 +369,11 @@ def run(chk):
             ms = [p for p in ps if p["kind"] == "store" and p["lv"][0] == "idx" and p["lv"][1] == P(r, "a") and not p.get("byref")]
             ok = len(ms) == 1 and len(ms[0]["loops"]) == 1 and (ms[0]["loops"][0]["lo"], ms[0]["loops"][0]["cmp"], ms[0]["loops"][0]["hi"]) == (
                 ZERO, "<", sym.arrow(P(ky, "params"), "n")) and ms[0]["op"] == "=" and ms[0]["val"][0] in ("call", "obj") and "operator()" in ms[0]["val"][1] \
-                and ("glob", "uniformTorus32_distrib") in [sym.root_of(a) if a[0] == "addr" else a for a in ms[0]["val"][2]] + list(ms[0]["val"][2])
+                and ("glob", "uniformTorus32_distrib") in [sym.root_of(a) if a[0] == "addr" else a for a in ms[0]["val"][2]] + list(ms[0]["val"][2]) \
+                and ("glob", "generator") in list(ms[0]["val"][2])
             chk.require(ok, "R3", "%s assigns every mask coefficient a fresh uniformTorus32 draw" % name, where=f.where,
-                        ok="a[i] = uniformTorus32_distrib(generator), i < n, inside the encryption", bad=[summ.show_piece(p)[:120] for p in ms], variant=vn)
+                        ok="a[i] = uniformTorus32_distrib(generator), i < n, inside the encryption",
+                        bad="%s (every coefficient must be drawn from uniformTorus32_distrib with the process generator itself)" % [summ.show_piece(p)[:120] for p in ms], variant=vn)
         tu = v.fn("torusPolynomialUniform")
         tps, _ = summ.pieces(v, tu, hooks=NOINLINE)
         r = tu.params[0]["n"]
@@ -429,8 +432,9 @@ def run(chk):
             for n in walk(f.d.get("body")):
                 if n.get("k") in ("call", "mcall", "construct") and n.get("callee") and RNG_CALLEES.search(n["callee"]):
                     bad.append("%s calls %s at %s:%s" % (f.q, n["callee"], f.file, n["l"]))
-                if n.get("k") == "var" and re.search(r"random_device|mt19937|default_random_engine|minstd", n.get("t", "")):
-                    bad.append("%s declares a local engine %s at %s:%s" % (f.q, n["n"], f.file, n["l"]))
+                if n.get("k") == "var" and "&" not in n.get("t", "") and "*" not in n.get("t", "") and re.search(r"random_device|mt19937|default_random_engine|minstd|linear_congruential_engine|mersenne_twister_engine|subtract_with_carry_engine|"
+                                                    r"discard_block_engine|shuffle_order_engine|ranlux|knuth_b", n.get("t", "")):
+                    bad.append("%s declares a local engine object '%s' at %s:%s (a copy of the process generator repeats its stream on every call; a fresh engine ignores the seed)" % (f.q, n["n"], f.file, n["l"]))
         chk.require(not bad, "R5", "no other entropy source (rand, random_device, clock, local engines) is reachable from the public API", where="libtfhe",
                     ok="%d reachable functions inspected" % len(reach), bad="; ".join(bad[:3]), variant=vn)
         # ---------------- R6 seeding
